@@ -4,7 +4,7 @@ import json, subprocess
 
 CLAIMED = {
  "C04": dict(level="model_checking", ref="6 C04",
-   text="TLC exhaustively checks the MerkleTree object spec (Merkle.tla: push/compute_root/get_paths/reset with retained levels) against the tree definition (Complete, MatchesDefinition, Binding, ResetClean) for bounded batches on a reused object; every batch-completing behaviour is replayed on the real MerkleTree (root and every path compared with the interpreted specification terms), and the real object driven for all n=1..255, size pairs and sequences is trace-validated by TLC (Trace_Merkle.tla).",
+   text="TLC exhaustively checks the MerkleTree object spec (Merkle.tla: push/compute_root/get_paths/reset with retained levels) against the tree definition (Complete, MatchesDefinition, Binding, ResetClean) for bounded batches on a reused object; every batch-completing behaviour is replayed on the real MerkleTree (root and every path compared with the interpreted specification terms), and the real object driven for all n=1..255, size pairs and sequences is trace-validated by TLC (Trace_Merkle.tla). Binding attempts include partial (non-aligned) path elements.",
    note="Symbolic hashing (SHA-512 collisions out of model); interpretation I uses the sha2 crate; node/root widths per profile are calibrated from the implementation because C04 does not fix them (C02 does).",
    technique="TLA+ object spec + TLC; behaviours replayed into MerkleTree; recorded batches validated against Trace_Merkle.tla"),
  "C05": dict(level="model_checking", ref="6 C05",
@@ -20,15 +20,15 @@ CLAIMED = {
    note="RFC 8032 equality is decided by ed25519-dalek (trusted oracle, vector-checked at start), not by TLC; a panic in MsgVerifier counts as reject.",
    technique="TLA+ object spec + TLC; behaviours replayed into MsgSigner/MsgVerifier; recorded runs validated against Trace_Signer.tla"),
  "C14": dict(level="model_checking", ref="6 C14",
-   text="Envelope.tla models the blob as byte cells and decrypt_seed's parsing arithmetic with symbolic key wrap and AEAD; TLC checks RoundTrip, TamperDetected, NoOtherPlaintext over wrapped lengths x plaintext lengths x provider kind x {every header bit and value, byte positions (boundaries in quick, every position in thorough), every truncation, extensions, provider faults on either call}; every decrypt transition is replayed on EnvelopeEncryption with harness KmsProviders; seeded random rounds (wrapped 16..1024, 1-2 tamper ops) are re-decided by TLC (Trace_Envelope.tla) together with byte-scan leak facts.",
+   text="Envelope.tla models the blob as byte cells and decrypt_seed's parsing arithmetic with symbolic key wrap and AEAD; TLC checks RoundTrip, TamperDetected, NoOtherPlaintext over wrapped lengths x plaintext lengths x provider kind x {every header bit and value, byte positions (boundaries in quick, every position in thorough), every truncation, extensions, provider faults on either call}; every decrypt transition is replayed on EnvelopeEncryption with harness KmsProviders; seeded random rounds (wrapped 16..1024, 1-2 tamper ops) are re-decided by TLC (Trace_Envelope.tla) together with byte-scan leak facts. Sequences of decrypt calls on one blob with the provider's behaviour changing between calls are recorded too (no decision may carry over).",
    note="AES-GCM and key wrapping are symbolic in the model; the harness providers are injective on wrapped bytes; leak detection is a raw byte scan for seed and DEK.",
    technique="TLA+ byte-cell model + TLC; decrypt transitions replayed into EnvelopeEncryption; recorded rounds validated against Trace_Envelope.tla"),
  "C16": dict(level="model_checking", ref="6 C16",
-   text="Config.tla states the relation Allowed(written, outcome): must refuse (range-documented key out of range, missing required, unknown key, bad seed), must run with exactly the written values (everything in range), or may refuse but never run with other values. TLC enumerates a valid base plus 1 (quick) / 2 (thorough) edits over an 18-value boundary grid for the six integer keys and the seed/interface/client_stats/persistence/unknown-key variants for both sources; the harness probes every case through make_config + is_valid_config + getters (documented variable names) and TLC decides each probe and a seeded stream of multi-key configurations (Trace_Config.tla).",
+   text="Config.tla states the relation Allowed(written, outcome): must refuse (range-documented key out of range, missing required, unknown key, bad seed), must run with exactly the written values (everything in range), or may refuse but never run with other values. TLC enumerates a valid base plus 1 (quick) / 2 (thorough) edits over an 18-value boundary grid for the six integer keys and the seed/interface/client_stats/persistence/unknown-key variants for both sources; the harness probes every case through make_config + is_valid_config + getters (documented variable names) and TLC decides each probe and a seeded stream of multi-key configurations (Trace_Config.tla). A running in-process Server per non-power-of-two batch_size is also checked to never sign more requests under one root than the configured batch_size (the value the server runs with).",
    note="The probe does not start the server; refused = Err, panic or is_valid_config false; TLC ints are 32-bit so observed values above 2e9 are clamped.",
    technique="TLA+ relation + TLC enumeration of written configurations; probes of the real loaders decided by trace validation"),
  "C17": dict(level="model_checking", ref="6 C17",
-   text="Stats.tla models per-worker per-client and aggregated recorders, the snapshot queue and the reporter; TLC checks Conservation, Bounded, UntrackedZero, MergePreserves, Equivalent and the action property Exclusive on every sequence of the 8 recording ops x 3 addresses (+ snapshot/merge/report) up to 3 (quick) / 4 with 2 workers (thorough) ops, and emits one behaviour per transition; each is executed on real PerClientStats(limit)/AggregatedStats/StatsQueue/Reporter objects logging the projection after every op, and TLC validates every step of those logs and of seeded sequences up to 10,000 ops (Trace_Stats.tla: logged post-state must be an allowed outcome; invariants evaluated in every state).",
+   text="Stats.tla models per-worker per-client and aggregated recorders, the snapshot queue and the reporter; TLC checks Conservation, Bounded, UntrackedZero, MergePreserves, Equivalent and the action property Exclusive on every sequence of the 8 recording ops x 3 addresses (+ snapshot/merge/report) up to 3 (quick) / 4 with 2 workers (thorough) ops, and emits one behaviour per transition; each is executed on real PerClientStats(limit)/AggregatedStats/StatsQueue/Reporter objects logging the projection after every op, and TLC validates every step of those logs and of seeded sequences up to 10,000 ops (Trace_Stats.tla: logged post-state must be an allowed outcome; invariants evaluated in every state). Apalache proves Conservation/Bounded/UntrackedZero as an inductive invariant of the recorder (StatsInd.tla: any number of events); the file written by Reporter::report() is decoded (zstd+csv) and compared with the merged sums.",
    note="Property level allows either counting or overflowing an event for an already-tracked address when the table is full (code overflows). Snapshot replicates Server::send_client_stats on library objects; the running server's wiring is checked by the server suite stage when present.",
    technique="TLA+ state machine + TLC; behaviours replayed into the real recorders; step-wise trace validation against Stats.tla"),
 
@@ -37,7 +37,7 @@ CLAIMED = {
    note="Cryptographic equalities are decided by sha2 / ed25519-dalek inside the interpretation; the relation over the execution is decided by TLC. Statistical acceptance region for the fault rate (6 sigma).",
    technique="trace validation of a real in-process Server against the property-level TLA+ spec ServerAbs.tla; independent verifier supplies facts"),
  "C07": dict(level="model_checking", ref="6 C07",
-   text="Request.tla classifies every datagram (must / must not / may be answered) from features computed by the interpretation; TLC proves the classification theorems over the enumerated feature space; an in-process Server receives every request length 1016..1508 step 4 for both protocols, unaligned neighbours, nonces of every aligned length, full batches of 64 at maximum path depth, and seeded truncated/extended/field-mutated/random datagrams up to 65507 bytes, each followed by a sentinel; TLC validates the trace: no response to a must-not datagram and no response longer than its request.",
+   text="Request.tla classifies every datagram (must / must not / may be answered) from features computed by the interpretation; TLC proves the classification theorems over the enumerated feature space; an in-process Server receives every request length 1016..1508 step 4 for both protocols, unaligned neighbours, nonces of every aligned length, full batches of 64 at maximum path depth, and seeded truncated/extended/field-mutated/random datagrams up to 65507 bytes, each followed by a sentinel; TLC validates the trace: no response to a must-not datagram and no response longer than its request. A backlog of 1000 minimal-size requests handled in one wake-up is included; amplification is judged for every response including duplicates.",
    note="A non-standard nonce length is 'may'. Loopback UDP assumed synchronous; rounds in which the kernel dropped datagrams are discarded (counted).",
    technique="TLA+ classification (Request.tla) + trace validation of a real in-process Server against ServerAbs.tla"),
  "C08": dict(level="model_checking", ref="6 C08",
@@ -53,7 +53,7 @@ CLAIMED = {
    note="PK(seed) and SHA-512 are computed by ed25519-dalek / sha2 (oracle).",
    technique="TLC on Identity.tla; trace validation of real servers per seed; direct probes of LongTermKey"),
  "C11": dict(level="model_checking", ref="6 C11",
-   text="Clock.tla defines the midpoint digits (base-10^6 tuples) for both protocols and the 5 s radius; TLC enumerates 13 boundary second values x 10 nanosecond values x 2 protocols and the cases are replayed through OnlineKey::make_srep; 12,000 (thorough 100,000) seeded clocks from the epoch to year 9999 are recorded and re-decided by TLC (Trace_Clock.tla); live in-process servers are bracketed by harness clock readings per request, including a drain loop kept busy for longer than the radius.",
+   text="Clock.tla defines the midpoint digits (base-10^6 tuples) for both protocols and the 5 s radius; TLC enumerates 13 boundary second values x 10 nanosecond values x 2 protocols and the cases are replayed through OnlineKey::make_srep; 12,000 (thorough 100,000) seeded clocks from the epoch to year 9999 are recorded and re-decided by TLC (Trace_Clock.tla); live in-process servers are bracketed by harness clock readings per request, including a drain loop kept busy for longer than the radius. A retransmitted (byte-identical) request after more than the radius must carry the clock of its own batch.",
    note="64-bit values are converted to digit tuples by the harness (TLC ints are 32-bit); harness and server read the same system clock.",
    technique="TLA+ arithmetic spec + TLC enumeration replayed into make_srep; trace validation of recorded clocks and live replies"),
  "C12": dict(level="model_checking", ref="6 C12",
@@ -61,16 +61,16 @@ CLAIMED = {
    note="draft-13 beyond the fourth VER entry is 'may'.",
    technique="TLC enumeration from Request.tla replayed into a real in-process Server; trace validation against ServerAbs.tla"),
  "C20": dict(level="model_checking", ref="6 C20",
-   text="For several seeds x every log level Off..Trace x fault_percentage 0/50 an in-process Server handles valid, invalid and fault-injected traffic with a capturing logger; every emitted datagram and every formatted log record is scanned for the seed, SHA-512(seed)[0..32] and the clamped private scalar in raw, hex (both cases) and base64 (standard, url-safe) forms; the scan results are facts in the trace and TLC rejects any event carrying one (Trace_Server.tla). Thorough adds stdout/stderr and datagrams of the real server binary for file and environment configuration sources.",
+   text="For several seeds x every log level Off..Trace x fault_percentage 0/50 an in-process Server handles valid, invalid and fault-injected traffic with a capturing logger; every emitted datagram and every formatted log record is scanned for the seed, SHA-512(seed)[0..32] and the clamped private scalar in raw, hex (both cases) and base64 (standard, url-safe) forms; the scan results are facts in the trace and TLC rejects any event carrying one (Trace_Server.tla). Thorough adds stdout/stderr and datagrams of the real server binary for file and environment configuration sources. The configuration loaders and validation (accepted and refused configurations, digit-only seeds, KMS ids with a plaintext seed) and, in both tiers, the real binary's stdout/stderr are scanned as well.",
    note="The decisive observation is a byte scan; low-variety seeds are not searched in raw form.",
    technique="trace validation against ServerAbs.tla with leak facts from a byte scan"),
 
  "C01": dict(level="model_checking", ref="6 C01",
-   text="Client.tla models the client's checks (unframe, Merkle, delegation window, DELE signature, SREP signature, print) against responses a network adversary can assemble component-wise (honest, replayed from earlier requests, other protocol, re-signed with own keys, junk; signatures over the attached or another payload); TLC checks Sound, NoTimeOnFailure, VerifiedOnlyWithKey, BindsEvenWithoutKey, Complete (quick 4e5, thorough 5e6+ states) and the two historical client defects are kept as violating constants (self-test). Every recipe within one substitution of the honest response and a seeded sample of farther ones is concretised on the request the REAL client process sent and served to it; single-byte forgeries in every listed byte region, replays within and across runs, truncations, extensions, mutations, re-signing and splices are recorded; TLC decides each run from the facts the independent verifier computed on the served datagram (Trace_Client.tla). Freshness: no duplicate among all observed nonces.",
+   text="Client.tla models the client's checks (unframe, Merkle, delegation window, DELE signature, SREP signature, print) against responses a network adversary can assemble component-wise (honest, replayed from earlier requests, other protocol, re-signed with own keys, junk; signatures over the attached or another payload); TLC checks Sound, NoTimeOnFailure, VerifiedOnlyWithKey, BindsEvenWithoutKey, Complete (quick 4e5, thorough 5e6+ states) and the two historical client defects are kept as violating constants (self-test). Every recipe within one substitution of the honest response and a seeded sample of farther ones is concretised on the request the REAL client process sent and served to it; single-byte forgeries in every listed byte region, replays within and across runs, truncations, extensions, mutations, re-signing and splices are recorded; TLC decides each run from the facts the independent verifier computed on the served datagram (Trace_Client.tla). Freshness: no duplicate among all observed nonces. Directed multi-request runs include certificate substitution after a genuine response.",
    note="Symbolic cryptography in the model (no forgery/collision); ed25519-dalek/sha2 in the interpretation; authenticity judged on the content a client extracts.",
    technique="TLC on Client.tla; recipes replayed into the real client binary; runs validated against Trace_Client.tla"),
  "C03": dict(level="model_checking", ref="6 C03",
-   text="Same specification as C01 (invariant Complete); the real client is run against the harness's honest reference responder (own keys, protocol-width Merkle tree) for version x key option x batch shapes (n,i) up to 64 x 9 midpoint classes from the epoch to year 9999, and against the REAL server binary through a recording relay with 1/8/64 simultaneous requests (all 64 Merkle indices observed); TLC requires exit 0, a time printed for every request, verified exactly when a key was given, and the printed time equal to the signed midpoint converted from the protocol's unit.",
+   text="Same specification as C01 (invariant Complete); the real client is run against the harness's honest reference responder (own keys, protocol-width Merkle tree) for version x key option x batch shapes (n,i) up to 64 x 9 midpoint classes from the epoch to year 9999, and against the REAL server binary through a recording relay with 1/8/64 simultaneous requests (all 64 Merkle indices observed); TLC requires exit 0, a time printed for every request, verified exactly when a key was given, and the printed time equal to the signed midpoint converted from the protocol's unit. The honest responder also uses tight delegation windows ([midp, max], [0, midp], [midp, midp]); the real server is also run with batch_size 8 against 12/33 simultaneous requests.",
    note="Printed time is read back with -j -z -f '%s.%f'; the relay sees every datagram so the facts are computed on the real server's responses.",
    technique="TLC on Client.tla; real client vs reference responder and real server; runs validated against Trace_Client.tla"),
  "C15": dict(level="model_checking", ref="6 C15",
@@ -78,11 +78,11 @@ CLAIMED = {
    note="Schedules of the real process are sampled; exhaustive only in the model. Ports picked by binding port 0 first.",
    technique="TLC liveness/safety on Process.tla; multi-cursor trace validation of the real binary's hook logs and observations"),
  "C18": dict(level="model_checking", ref="6 C18",
-   text="Server.tla and Process.tla are model-checked; the real binary with 1..16 workers serves 4..64 concurrent closed-loop reference clients and bursts; every request is validated as a round of ServerAbs.tla (exactly one reply, verified under the single long-term key, own nonce and proof) by Trace_Server.tla, hook logs by Trace_Process.tla; no worker dies.",
+   text="Server.tla and Process.tla are model-checked; the real binary with 1..16 workers serves 4..64 concurrent closed-loop reference clients and bursts; every request is validated as a round of ServerAbs.tla (exactly one reply, verified under the single long-term key, own nonce and proof) by Trace_Server.tla, hook logs by Trace_Process.tla; no worker dies. Cluster.tla (kernel hands each datagram to any worker; every valid request answered exactly once under one identity; the dying-worker variant violates liveness) is model-checked for N=3.",
    note="OS scheduling and SO_REUSEPORT distribution are sampled over seeded rounds.",
    technique="trace validation of the real multi-worker binary against ServerAbs.tla and Process.tla"),
  "C19": dict(level="model_checking", ref="6 C19",
-   text="Process.tla: liveness Stops (signal leads to exit 0) under weak fairness of every thread and NO fairness or bound on arriving datagrams, CleanExit; the unbounded-drain variant violates Stops with the drain/Arrive lasso (self-test). The real binary is signalled (INT/TERM) at seeded delays while idle, under closed-loop load and under an open-loop flood, with 1/4(/16) workers and the reporter on/off: exit status 0 within 5 s, no panic output, hook logs consistent with Process.tla, every reply received before exit still valid.",
+   text="Process.tla: liveness Stops (signal leads to exit 0) under weak fairness of every thread and NO fairness or bound on arriving datagrams, CleanExit; the unbounded-drain variant violates Stops with the drain/Arrive lasso (self-test). The real binary is signalled (INT/TERM) at seeded delays while idle, under closed-loop load and under an open-loop flood, with 1/4(/16) workers and the reporter on/off: exit status 0 within 5 s, no panic output, hook logs consistent with Process.tla, every reply received before exit still valid. Further scenarios: the statistics hand-off under load with a 1 s status interval and the signal sent the moment the server stops answering; file descriptors exhausted when health-check connections arrive, then the signal.",
    note="'a few seconds' = 5 s.",
    technique="TLC liveness on Process.tla; signal scenarios on the real binary validated by Trace_Process.tla / Trace_Server.tla"),
 }
